@@ -1,4 +1,5 @@
 import Postcard.Props.C03
+import Postcard.Props.C01EnumAt
 -- property theorems of C03: every one must depend only on propext / Classical.choice / Quot.sound
 #print axioms Postcard.dec_ok_iff
 #print axioms Postcard.decTuple_ok_iff
@@ -25,3 +26,5 @@ import Postcard.Props.C03
 #print axioms Postcard.dec_iN_badVarint_iff
 #print axioms Postcard.dec_uN_unexpectedEnd_iff
 #print axioms Postcard.decVarint_ok_iff
+#print axioms Postcard.decEnumAt_ok_iff
+#print axioms Postcard.decEnumAt_total
